@@ -420,7 +420,13 @@ def run(tier, seed):
     run.assume("the OUTPUT4/OUTPUT2 record layouts as transcribed in vc/nasenc.py from the format descriptions (OUTPUT4: header record, column records with dense / bigmat [L+1, irow] / "
                "nonbigmat [irow + 65536(L+1)] strings, trailer column ncol+1; OUTPUT2: key triplets, name/trailer/name records, per-column strings [row, values], end-of-record keys)",
                "in files with 64-bit integers every word, including a single-precision value, occupies 8 bytes")
-    run.not_covered += ["the decoders are NOT verified deductively beyond the extracted arithmetic: the end-to-end decode is a bounded differential check (labelled bounded)",
+    run.trust("vc.symex (VC generator) with contract objects: fp.read/seek, Struct.unpack, struct.unpack, np.fromfile act on a GHOST file (byte offset + uninterpreted content), "
+              "put/init/retrn are opaque; contracts/op4_readers.py: the OUTPUT4 binary record grammar written as recursive well-formedness predicates")
+    run.assume("binary OUTPUT4 reader contracts: the file is well formed per the grammar and long enough (short reads are not modelled); _put_binary_values* store the block they are "
+               "given at (row, column) [checked only by the bounded differential part]; struct.unpack(fmt % n, bytes) returns n values when the byte count is n * itemsize; "
+               "np.fromfile(fp, dtype, n) consumes n * itemsize bytes")
+    run.not_covered += ["binary OUTPUT4: the column readers, the skipper and the tail of _loadop4_binary ARE verified deductively (loop invariants over a ghost file: every read matches its struct, "
+                        "every put is the string the grammar defines, final position); its header loop, the ASCII readers and all of OUTPUT2 are covered by the bounded differential check only",
                         "table-specific decoders (_rdop2bgpdt, rdn2cop2, rdparampost, ...)", "OUTPUT2 files written by other Nastran versions with extra header records"]
     for rel, names in ((OP4, ("_decode_format", "_skipop4_binary", "_rd_dense_binary", "_rd_bigmat_binary", "_rd_nonbigmat_binary", "_loadop4_binary", "_loadop4_ascii", "_skipop4_ascii")),
                        (OP2, ("rdop2matrix", "skipop2matrix", "rdop2nt", "rdop2record", "skipop2record", "rdop2tabheaders", "directory", "rdop2mats"))):
@@ -432,6 +438,18 @@ def run(tier, seed):
             run.add_verdicts([report.Verdict(d["name"], d["status"], "z3-%s" % z3.get_version_string(), d["seconds"], "post", OP4 if "op4" in d["name"] or "_rd_" in d["name"] else OP2, d["detail"])])
     except (LookupError, Exception) as ex:
         run.undecided.append("kernel extraction: %r" % ex)
+    # loop contracts of the binary column readers / skipper on a ghost file (all files, all numbers of columns and strings)
+    try:
+        from vc import pipeline
+        from contracts import op4_readers as OR
+        src4 = report.read_source(OP4)
+        pipeline.verify_jobs(run, OR.jobs(src4))
+        n_inv, bad_inv = OR.open_read_invariant(src4)
+        run.add_verdicts([report.Verdict("op4._op4open_read::class invariant of the precompiled structs (sizes, byte order, words per real) - real branch executed for {32,64}-bit x {<,>}",
+                                         "undecided" if n_inv is None else ("failed" if bad_inv else "proved"), "exhaustive execution (finite domain)", 0.0, "post", OP4,
+                                         {"checks": n_inv, "violated": bad_inv})])
+    except Exception as ex:
+        run.undecided.append("op4 reader contracts: checker error %r" % (ex,))
     sk = encoder_sanity()
     if sk is not None:
         run.add_verdicts([report.Verdict("encoder sanity::the independent OUTPUT2 encoder reproduces the key/record skeleton of the Nastran-written sample double_le.op2", "proved" if sk["agree"] else "undecided",
